@@ -158,7 +158,8 @@ class Symex:
     """
 
     def __init__(self, model, inline=None, hooks=None, unroll=2, max_paths=512, max_steps=200000, what="?",
-                 assume_asserts=True, isinstance_hook=None, attr_hook=None, max_depth=12, cut_loops=False):
+                 assume_asserts=True, isinstance_hook=None, attr_hook=None, max_depth=12, cut_loops=False,
+                 oracle=None):
         self.model = model
         self.inline = inline or (lambda q: False)
         self.hooks = dict(hooks or {})
@@ -171,6 +172,9 @@ class Symex:
         self.attr_hook = attr_hook
         self.max_depth = max_depth
         self.cut_loops = cut_loops
+        # optional model of the uninterpreted vocabulary: oracle(sx, atom) -> True | False | None decides an atom
+        # (recorded on the path, no fork); None leaves the atom to decision replay
+        self.oracle = oracle
         self._modconst = {}
         self.fresh_n = 0
         self.on_start = None
@@ -280,6 +284,10 @@ class Symex:
             pol = False
         if c in self.facts:
             d = self.facts[c]
+        elif self.oracle is not None and (r := self.oracle(self, c)) is not None:
+            d = bool(r)
+            self.facts[c] = d
+            self.path.append((c, d))
         else:
             k = len(self.decisions)
             d = self.prefix[k] if k < len(self.prefix) else True
@@ -669,6 +677,11 @@ class Symex:
             a = sym(a.name)
         if isinstance(b, Ext):
             b = sym(b.name)
+        if opname in ("in", "not in") and isinstance(a, Obj) and isinstance(b, (list, tuple, set, frozenset)) and \
+                all(isinstance(e, Obj) for e in b):
+            # an abstract record among abstract records: identity, as for ``==`` of two records
+            found = any(e is a for e in b)
+            return found if opname == "in" else not found
         if isinstance(a, Obj) and not (opname in ("is", "is not", "==", "!=") and isinstance(b, Obj)):
             a = a.term
         if isinstance(b, Obj) and not isinstance(a, Obj):
@@ -1406,7 +1419,7 @@ class Symex:
             pass
         if isinstance(o, dict):
             if attr == "items":
-                return list(o.items())
+                return _ItemsView(o.items())
             if attr == "keys":
                 return list(o.keys())
             if attr == "values":
@@ -1509,6 +1522,33 @@ class Symex:
             except Exception:
                 self.unsupported(node, f"str method {attr}")
         self.unsupported(node, f"method {attr} of {type(o).__name__}")
+
+
+class _ItemsView(list):
+    """``dict.items()``: a list for iteration, a set for the order comparisons (``a.items() <= b.items()``)."""
+
+    def _has(self, x):
+        return any(_eq(k, k2) and _eq(v, v2) for k2, v2 in self for k, v in (x,))
+
+    def __le__(self, o):
+        return all(o._has(x) for x in self) if isinstance(o, _ItemsView) else list.__le__(self, o)
+
+    def __ge__(self, o):
+        return o.__le__(self) if isinstance(o, _ItemsView) else list.__ge__(self, o)
+
+    def __lt__(self, o):
+        return self.__le__(o) and not o.__le__(self) if isinstance(o, _ItemsView) else list.__lt__(self, o)
+
+    def __gt__(self, o):
+        return o.__lt__(self) if isinstance(o, _ItemsView) else list.__gt__(self, o)
+
+    def __eq__(self, o):
+        return self.__le__(o) and o.__le__(self) if isinstance(o, _ItemsView) else list.__eq__(self, o)
+
+    def __ne__(self, o):
+        return not self.__eq__(o)
+
+    __hash__ = None
 
 
 class _DefaultDict(dict):
